@@ -219,8 +219,8 @@ def run(tier, seed, replay):
                 "result compared with the sequential result. non-trivial = call issued while other callers run "
                 "concurrently on the same reader (all stress calls; they are distinct random ranges/coords)")
     run.exhaustive = False
-    run.extra = {"step_structures": {" ".join(k): v for k, v in structures.items()},
-                 "stress_reads": s["reads"], "stress_lookups": s["lookups"], "wrong_results": len(v.fails)}
+    run.extra = dict(run.extra or {}, step_structures={" ".join(k): v for k, v in structures.items()},
+                     stress_reads=s["reads"], stress_lookups=s["lookups"], wrong_results=len(v.fails))
     run.assumptions = ["Linux dup()/fcntl(F_DUPFD) share the open file description; pread does not use it",
                        "strace sees every syscall of the probe; the probe is single-threaded so the order is unambiguous"]
     return run.finish()
